@@ -6,7 +6,7 @@ func extraRules() []*Rule {
 	out = append(out, rulesLocks()...)
 	out = append(out, rulesTables()...)
 	out = append(out, rulesStorage()...)
-	out = append(out, ruleLifecycle(), ruleHeartbeat(), ruleRecordOffset(), ruleFollowerLookup(), ruleOffsetOwner(), ruleSendLabel(), ruleVerifyRound(), ruleContactRefresh(), ruleHandlerDemote(), rulePrevoteToken(), ruleApplyWait(), ruleRestoreReconcile(), ruleOptionRange(), rulePartialReset(), ruleLeaseDuration(), ruleLogPosition())
+	out = append(out, ruleLifecycle(), ruleHeartbeat(), ruleRecordOffset(), ruleFollowerLookup(), ruleOffsetOwner(), ruleSendLabel(), ruleVerifyRound(), ruleContactRefresh(), ruleHandlerDemote(), rulePrevoteToken(), ruleApplyWait(), ruleRestoreReconcile(), ruleOptionRange(), rulePartialReset(), ruleLeaseDuration(), ruleLogPosition(), ruleSnapVisible())
 	return out
 }
 
@@ -36,6 +36,8 @@ func extraSpecs() []*PropertySpec {
 		{ID: "C08", Rules: []string{"RESTORE-COVER"}, Thorough: []string{"STATE-ATOMIC"}, Decided: "restore reloads currentTerm and votedFor from results #0/#1 of StateStorage.State()"},
 		{ID: "C10", Rules: []string{"RESTORE-COVER"}, Decided: "restore takes lastApplied, commitIndex and the snapshot boundary from the metadata of the very file handed to StateMachine.Restore"},
 		{ID: "C05", Rules: []string{"VERIFY-ROUND"}, Decided: "a read is marked quorum-verified only by a heartbeat round that was started after the read was submitted (per-operation stamp strictly below the round's identifier, which is fixed when the round starts)"},
+		{ID: "C10", Rules: []string{"SNAP-VISIBLE"}, Decided: "a snapshot directory that is still being written is never visible to SnapshotFile(), so nothing is restored from or sent out of a file whose label is complete and whose content is not"},
+		{ID: "C14", Rules: []string{"SNAP-VISIBLE"}, Decided: "as C10: a restart never restores from an unfinished snapshot directory"},
 		{ID: "C12", Rules: []string{"LOG-POSITION"}, Decided: "the log file is never in append mode and is positioned whenever a new descriptor is installed, so a record's Offset is where the record is"},
 		{ID: "C19", Rules: []string{"LOG-POSITION"}, Decided: "as C12: offsets read back from storage equal the positions written"},
 		{ID: "C06", Rules: []string{"LOG-POSITION"}, Decided: "Truncate cuts the persistent log where the in-memory log says"},
